@@ -636,7 +636,7 @@ func twBurst(prop, kind string) fw.Result {
 func twDescribe(kind string) fw.Description {
 	return fw.Description{
 		Level: "model_checking",
-		Rule: "(a) bounded-exhaustive: all arrival sequences of length 1..L over a 10-value timestamp alphabet (window boundaries, +-1 ms, duplicates, an event earlier than the first one) x window sizes (incl. one that does not divide 24h) x TIMEUNIT ms|ss|ns x MAXOUTOFORDERNESS x eager|lazy feed (x key assignments over 2 keys for L-1), each followed by a far sentinel, executed through streamsql.New/Execute/Emit on the real engine under the deterministic schedule with the virtual clock and compared with ref." + kind + " (accepted rows must be reported in exactly their interval(s), late-on-arrival rows may be, bounds/alignment/window_id/count/sum recomputed, nothing twice, nothing before the watermark); " +
+		Rule: "(a) bounded-exhaustive: all arrival sequences of length 1..L over a 10-value timestamp alphabet (window boundaries, +-1 ms, duplicates, an event earlier than the first one) x window sizes (incl. one that does not divide 24h) x TIMEUNIT ms|ss|ns x MAXOUTOFORDERNESS x eager|lazy feed (x key assignments over 2 keys for L-1), each followed by a far sentinel (further configurations: ALLOWEDLATENESS on sequences without a late row, streams that stop without a sentinel, bursts of 160/320 rows), executed through streamsql.New/Execute/Emit on the real engine under the deterministic schedule with the virtual clock and compared with ref." + kind + " (accepted rows must be reported in exactly their interval(s), late-on-arrival rows may be, bounds/alignment/window_id/count/sum recomputed, nothing twice, nothing before the watermark); " +
 			"(b) the window object itself (window.CreateWindow from rsql.Parse) driven by an ingest thread under the schedule explorer: all interleavings with the trigger goroutine and the watermark goroutine with <= bound deviations for fixed sequences; non-trivial = >=2 deliveries (a) / reached via >=1 deviation (b)",
 		Bounds:      map[string]any{"max_len": map[string]int{"quick": 4, "thorough": 5}, "timestamps_ms": twTimes, "sched_bound": map[string]int{"quick": 2, "thorough": 3}},
 		Assumptions: []string{"ALLOWEDLATENESS = 0 (late updates are C02's subject)", "event timestamps far below virtual now + 24h", "window output buffer never full inside the bounds"},
